@@ -563,230 +563,6 @@ class Runner:
             if st["failures"] <= 60:
                 self.failures.append(fail)
 
-    def shrink(self, case):
-        return iter(())
-
-    def describe(self, case):
-        return case
-
-    def setup(self):
-        pass
-
-    def reset(self):
-        pass
-
-
-@dataclass
-class Property:
-    id: str
-    theorems: list
-    families: list
-    title: str = ""
-    trusted_base: list = field(default_factory=list)
-    assumptions: list = field(default_factory=list)
-    technique: str = "Lean 4 proof + differential correspondence"
-    pre_build: Optional[Callable] = None
-    rule: str = ""
-    partial_note: str = ""
-
-
-def parse_result(line: str) -> dict:
-    e = parse_sx(line)
-    if len(e) != 1 or not isinstance(e[0], list) or not e[0] or e[0][0] != "r":
-        return {"error": line[:300]}
-    res = {}
-    for item in e[0][1:]:
-        if isinstance(item, list) and item:
-            res[item[0]] = item[1] if len(item) == 2 else item[1:]
-    return res
-
-
-def _norm(x):
-    """python observable -> same shape parse_sx gives (atoms as strings)."""
-    return parse_sx(sx(x))[0]
-
-
-@dataclass
-class Failure:
-    family: str
-    case: Any
-    pyout: Any
-    res: dict
-    kind: str  # 'property' (c fails) | 'model' (a fails, c holds) | 'theorem' (b fails inside P)
-    signature: dict = field(default_factory=dict)
-
-
-def load_findings(prop_id: str) -> list[dict]:
-    p = os.path.join(VERIF, "KNOWN_FINDINGS.json")
-    if not os.path.exists(p):
-        return []
-    data = json.load(open(p))
-    return [f for f in data.get("findings", []) if f.get("property") == prop_id]
-
-
-def match_finding(fail: Failure, findings: list[dict]) -> Optional[dict]:
-    for f in findings:
-        if f.get("status") != "known":
-            continue  # fixed entries suppress nothing
-        if f.get("family") not in (None, fail.family):
-            continue
-        if f.get("clause") not in (None, fail.kind):
-            continue
-        sig = f.get("signature", {})
-        if all(fail.signature.get(k) == v for k, v in sig.items()):
-            return f
-    return None
-
-
-class CaseTimeout(BaseException):
-    pass
-
-
-def _on_alarm(signum, frame):
-    raise CaseTimeout()
-
-
-def eval_cases(fam: "Family", driver: "LeanDriver", batch: list) -> list[tuple]:
-    """batch of cases -> list of (case, pyout_norm, parsed driver result); runs in workers too."""
-    import signal
-    pyouts, lines = [], []
-    signal.signal(signal.SIGALRM, _on_alarm)
-    tmo = float(getattr(fam, "case_timeout", 20.0))
-    for case in batch:
-        try:
-            signal.setitimer(signal.ITIMER_REAL, tmo)
-            try:
-                fam.reset()
-                out = fam.run_impl(case)
-            finally:
-                signal.setitimer(signal.ITIMER_REAL, 0)
-        except CaseTimeout:
-            n_to = locals().get("n_to", 0) + 1
-            if n_to >= 2:
-                tmo = min(tmo, 0.5)  # the implementation hangs: do not burn the budget on it
-            out = "py-timeout"  # non-termination of the implementation: rejected by every Spec
-        except Exception as e:  # un-mapped exception from the implementation
-            out = ["py-exception", type(e).__name__]
-            if os.environ.get("VERIF_DEBUG"):
-                traceback.print_exc()
-        try:
-            po = _norm(out)
-            line = fam.line(case, out)
-        except Exception as e:
-            po = ["py-unserialisable", type(e).__name__]
-            line = fam.line(case, po)
-        pyouts.append(po)
-        lines.append(line)
-    outs = driver.run(lines)
-    return [(c, po, parse_result(o)) for c, po, o in zip(batch, pyouts, outs)]
-
-
-_WORKER = {}
-
-
-def _worker_eval(batch):
-    return eval_cases(_WORKER["fam"], _WORKER["driver"], batch)
-
-
-def _batched(it, n):
-    while True:
-        b = list(itertools.islice(it, n))
-        if not b:
-            return
-        yield b
-
-
-class Runner:
-    def __init__(self, prop: Property, tier: str, seed: int, budget_s: float):
-        self.prop = prop
-        self.tier = tier
-        self.seed = seed
-        self.budget_s = budget_s
-        self.t0 = time.time()
-        self.driver = LeanDriver(prop.id)
-        self.evaluations = 0
-        self.nontrivial_keys = set()
-        self.samples = []
-        self.branches = {}
-        self.per_family = {}
-        self.failures: list[Failure] = []
-        self.inside_p = 0
-        self.exhaustive_all = True
-        self.timed_out_families = []
-
-    def elapsed(self):
-        return time.time() - self.t0
-
-    def eval_batch(self, fam: Family, batch: list) -> list[tuple]:
-        return eval_cases(fam, self.driver, batch)
-
-    def classify(self, fam: Family, case, po, res) -> Optional[Failure]:
-        if "error" in res or "impl" not in res:
-            return Failure(fam.name, case, po, res, "model", {"driver": "bad-output"})
-        a = (po == res["impl"])
-        c = (res.get("ok", "T") == "T")
-        inP = (res.get("p", "T") == "T")
-        b = (res.get("implok", "T") == "T")
-        kind = None
-        if not c:
-            kind = "property"
-        elif not a:
-            kind = "model"
-        elif inP and not b:
-            kind = "theorem"
-        if kind is None:
-            return None
-        f = Failure(fam.name, case, po, res, kind)
-        try:
-            f.signature = dict(fam.signature(case, po, res))
-        except Exception:
-            f.signature = {}
-        f.signature.setdefault("a", a)
-        f.signature.setdefault("inP", inP)
-        return f
-
-    def run_family(self, fam: Family, rng: random.Random, deadline: float):
-        fam.setup()
-        st = self.per_family.setdefault(fam.name, {"evaluations": 0, "nontrivial": 0, "failures": 0, "exhaustive": bool(fam.exhaustive)})
-        it = iter(fam.cases(self.tier, rng))
-        done = False
-        while not done:
-            batch = list(itertools.islice(it, fam.batch))
-            if not batch:
-                break
-            if time.time() > deadline:
-                st["exhaustive"] = False
-                st["stopped_on_budget"] = True
-                self.timed_out_families.append(fam.name)
-                break
-            for case, po, res in self.eval_batch(fam, batch):
-                self.evaluations += 1
-                st["evaluations"] += 1
-                br = res.get("br", "-")
-                br = br if isinstance(br, str) else sx(br)
-                key = fam.name + ":" + br
-                self.branches[key] = self.branches.get(key, 0) + 1
-                if res.get("p", "T") == "T":
-                    self.inside_p += 1
-                try:
-                    nt = fam.nontrivial(case, po)
-                except Exception:
-                    nt = False
-                if nt:
-                    h = hashlib.blake2b(repr((fam.name, case)).encode(), digest_size=8).digest()
-                    if h not in self.nontrivial_keys:
-                        self.nontrivial_keys.add(h)
-                        st["nontrivial"] += 1
-                if len(self.samples) < 12 and (st["evaluations"] in (1, 7, 97) or (nt and st["evaluations"] % 1013 == 5)):
-                    self.samples.append({"family": fam.name, "case": fam.describe(case), "python": po, "lean": res})
-                fail = self.classify(fam, case, po, res)
-                if fail is not None:
-                    st["failures"] += 1
-                    if len(self.failures) < 200:
-                        self.failures.append(fail)
-        if not st["exhaustive"]:
-            self.exhaustive_all = False
-
     def shrink(self, fam: Family, fail: Failure) -> Failure:
         cur = fail
         budget = 300
